@@ -272,6 +272,8 @@ def phases(tier):
     envcore += [('max_score', p, 'gradescope') for p in ('good', 'runtime')]
     envcore += [('nothing', p, 'standard') for p in MODULE_SUBS] + [('assert', p, 'standard') for p in MODULE_SUBS]
     envcore += [('long_args', p, 'standard') for p in ('good', 'wrong', 'runtime')]
+    # a script that pulls in an optional extension (first import in the process) next to a submission that uses the library
+    envcore += [('plots', 'good', 'standard'), ('plots', 'plot', 'standard'), ('nothing', 'plot', 'standard'), ('assert', 'plot', 'standard')]
     envcore += [('override_same_name', 'good', 'standard'), ('override_same_name', 'indent', 'standard'),
                 ('nothing', 'indent', 'standard'), ('assert', 'indent', 'standard')]
     allg = gradings(tier)
